@@ -423,7 +423,10 @@ def run(chk):
         'std::string( ptr, n) carries bounds obligations against mString[0..L], the source extents and local buffers; '
         'unsigned arithmetic that can wrap becomes an unconstrained value; the class invariant mLength <= L with a '
         'known NUL at mString[ mLength] is assumed at entry and proved at every exit.' % grid)
-    chk.assumptions = ['const char* arguments are NUL-terminated strings; copy( dest, count) may write count bytes',
+    chk.assumptions = ['O5 only: arguments of the documented domain (insert/erase index <= length, replace pos < length, '
+                       'sub-range positions <= source length, count <= strlen for ( const char*, count)), sources do not '
+                       'alias the destination, memcpy/memmove/memset/vsnprintf have their standard meaning',
+                       'const char* arguments are NUL-terminated strings; copy( dest, count) may write count bytes',
                        'iterators handed in are valid for the current text (end marker or inside) and [first, last) is a '
                        'valid range; overloads taking std::string iterators are not analysed',
                        'vsnprintf writes at most the given size incl. the terminator',
@@ -501,6 +504,21 @@ def run(chk):
         for o in eng.obligations[before:]:
             chk.check(o.held, 'O1', f.name, '%s [%s]' % (o.what, tag), o.where, o.detail)
     total += iterators(chk, prog, eng)
+    # third clause - 'the length equals the C-string length of the buffer when no NUL was stored': every byte below
+    # the new length was written by the operation (or is old text at its place) and is a byte of a source, never
+    # a left-over - the provenance rule of C11-R4, run here for the same capacities
+    from . import c11
+    chk.rule('O5', 'no left-over byte below the length: new length and origin of every byte below it (strlen clause)',
+             150)
+    sub = type(chk)(chk.pid, chk.tier)
+    sub._known = []
+    eng11 = c11.make_engine(prog)
+    for L in grid if chk.tier == 'quick' else [10, 255, 65536]:
+        c11.r4_mutators(sub, prog, eng11, L)
+        c11.r4_swap(sub, prog, eng11, L)
+        c11.r4_sprintf(sub, prog, eng11, L)
+    for o in sub.obligations:
+        chk.check(o['status'] == 'held', 'O5', o['function'], o['what'], o['where'], o.get('detail', ''))
     chk.samples.append({'members_analysed': total, 'capacities': grid})
     if eng.unsupported:
         chk.notes.append('constructs evaluated as opaque: %s' % sorted(set(eng.unsupported))[:12])
